@@ -306,6 +306,14 @@ void DnsRequest::onUdpRecv(const void *data_ptr, size_t data_size, const SockAdd
 #if 0
             LogTrace("type:%d, class:%d, ttl:%d, len:%d", an_type, an_class, an_ttl, an_len);
 #endif
+            //! RDATA 必须完整地在包内，每条记录解析完后必须正好停在 RDATA 的末尾，
+            //! 否则后面的记录会从错误的位置开始解析
+            if (!parser.checkSize(an_len)) {
+                LogNotice("dns reply incomplete");
+                return;
+            }
+            const size_t rdata_end = parser.pos() + an_len;
+
             if (an_type == DNS_TYPE_A) {
                 uint32_t ip_value = 0;
                 auto old_endian = parser.setEndian(util::Endian::kLittle);
@@ -333,6 +341,11 @@ void DnsRequest::onUdpRecv(const void *data_ptr, size_t data_size, const SockAdd
                     LogNotice("dns reply incomplete");
                     return;
                 }
+            }
+
+            if (parser.pos() != rdata_end) {
+                LogNotice("dns reply record type:%d with wrong length:%d", an_type, an_len);
+                return;
             }
         }
     } else {
